@@ -19,7 +19,7 @@ ASSUMPTIONS = [
 ]
 FAULTS = ("eof", "read-error", "eof-in-message", "junk-then-eof", "handler-exception", "peer-reset", "write-error-then-eof", "write-error-then-reset", "write-side-closed-then-eof",
           # the connection ends through an error while undecoded input is still buffered
-          "read-error-in-message", "reset-in-message", "handler-exception-pipelined")
+          "read-error-in-message", "reset-in-message", "handler-exception-pipelined", "long-junk-then-eof")
 POLICY = {0: "Also", 1: "Only", 2: None}
 
 
@@ -135,6 +135,11 @@ class Sess:
                 ep.feed(b"\x00\xff<<<junk>&&& <getProperties")
                 self.pump()
                 ep.eof()
+            elif fault == "long-junk-then-eof":
+                # more than the receive buffer keeps, starting like a message, without a single '>'
+                ep.feed(b'<setNumberVector device="CAM" name="' + b"x" * 3000)
+                self.pump()
+                ep.eof()
             elif fault == "handler-exception":
                 ep.feed(b'<getProperties version="1.7" name="BOOM"/>')
             elif fault == "handler-exception-pipelined":
@@ -174,6 +179,10 @@ class Sess:
                 src.supply("")
             elif fault == "junk-then-eof":
                 src.supply("\x00\xff<<<junk>&&& <getProperties\n")
+                self.pump()
+                src.supply("")
+            elif fault == "long-junk-then-eof":
+                src.supply('<setNumberVector device="CAM" name="' + "x" * 3000 + "\n")
                 self.pump()
                 src.supply("")
             elif fault == "handler-exception":
